@@ -12,7 +12,9 @@ Case = (prog ops).
                                      3 Signal::from / Signal::stored, 4 ArcSignal::from / ArcSignal::stored,
                                      5 MappedSignal / ArcMappedSignal over an (Arc)RwSignal j, 6 MaybeSignal
          (3 kind body handler [par]) effect; kind 0 Effect::new, 1 RenderEffect, 2 watch, 3 watch(immediate),
-                                     4 Effect::new_isomorphic, 5 ImmediateEffect (not modelled: compare=False);
+                                     4 Effect::new_isomorphic, 5 ImmediateEffect (not modelled: compare=False),
+                                     6 `signal.to_stream()` (traits.rs ToStream: an Effect::new_isomorphic inside the library that sends
+                                     signal.get() into a channel; body must be (1 j), j a signal; its runs are read off the stream);
                                      par: the effect under whose owner this effect's owner is created (-1 / absent:
                                      under the root): a static tree of owners
          (4 cmp src V P (T ...))     Selector over the closure src; cmp 0 Selector::new, 1 new_with_fn(==),
@@ -319,6 +321,11 @@ def valid_prog(prog):
                 return False
         if nd[0] == EFF and nd[1] not in (2, 3) and nd[3] != [0, 0]:
             return False
+        if nd[0] == EFF and not (isinstance(nd[1], int) and 0 <= nd[1] <= 6):
+            return False
+        if nd[0] == EFF and nd[1] == 6 and not (nd[2][0] == 1 and len(nd[2]) == 2 and 0 <= nd[2][1] < i
+                                                  and prog[nd[2][1]][0] == SIG and prog[nd[2][1]][1] in (0, 1, 2, 4)):
+            return False
         if nd[0] == DER and nd[1] >= 3 and not valid_wrapper(prog, i):
             return False
         if nd[0] == EFF and nd[1] == 5 and var_of(nd) == 3 and any(prog[j][0] in (MEMO, SEL) for j in cone(prog, i)):
@@ -432,14 +439,16 @@ def disposable(prog, n):
                 return False
         if other[0] == DER and other[1] >= 3 and other[2][0] == 1 and other[2][1] == n:
             return False
+        if other[0] == EFF and other[1] == 6 and other[2] == [1, n]:
+            return False          # to_stream reads with get(): it panics on a disposed signal (documented)
     return True
 
 
 def handle_disposable(prog, e):
     """(7 e how): the effect alone is disposed through its handle: nothing lives below it"""
     nd = prog[e]
-    if nd[0] != EFF or any(parent_of(x) == e for x in prog) or has_create(nd[2]):
-        return False
+    if nd[0] != EFF or nd[1] == 6 or any(parent_of(x) == e for x in prog) or has_create(nd[2]):
+        return False          # (the effect inside to_stream has no handle the user could dispose)
     return True
 
 
@@ -923,6 +932,22 @@ def add_variants(rng, prog, p=0.5):
                 choices = (1, 2, 3, 3)      # new_mut: only where it cannot recurse
             par = nd[4] if len(nd) > 4 else -1
             nd[4:] = [par, rng.choice(choices)]
+    return prog
+
+
+def add_streams(rng, prog, p=0.5):
+    """replace an effect that has no owner below it by `signal.to_stream()` over one of the signals before it"""
+    for e, nd in enumerate(prog):
+        if nd[0] != EFF or nd[1] in (1, 5) or rng.random() >= p or any(parent_of(x) == e for x in prog) or has_create(nd[2]):
+            continue
+        sigs = [j for j in range(e) if prog[j][0] == SIG and prog[j][1] in (0, 1, 2, 4)]
+        if sigs:
+            old = list(nd)
+            nd[1:4] = [6, [1, rng.choice(sigs)], [0, 0]]
+            if len(nd) > 5:
+                nd[5] = 0
+            if not writes_terminate(prog):
+                nd[:] = old
     return prog
 
 
@@ -2038,7 +2063,7 @@ def describe(item):
         flags = item["case"][2] if len(item["case"]) > 2 else 0
         out = []
         sf = ["ArcRwSignal", "signal()", "RwSignal", "ArcTrigger cell", "arc_signal()"]
-        ek = ["Effect::new", "RenderEffect", "watch", "watch(immediate)", "Effect::new_isomorphic", "ImmediateEffect"]
+        ek = ["Effect::new", "RenderEffect", "watch", "watch(immediate)", "Effect::new_isomorphic", "ImmediateEffect", "to_stream of"]
         for i, nd in enumerate(prog):
             if nd[0] == TPL:
                 d = nd[1]
@@ -2047,7 +2072,7 @@ def describe(item):
                                                               ["", "[always changed]", "[changed iff parity differs]"][d[1] % 3], show_expr(d[3]), show_var(d)))
                 else:
                     h = "" if d[1] not in (2, 3) else " handler %s" % show_expr(d[3])
-                    out.append("n%d = template %s(%s)%s%s" % (i, ek[d[1] % 6], show_expr(d[2]), h, show_var(d)))
+                    out.append("n%d = template %s(%s)%s%s" % (i, ek[d[1] % 7], show_expr(d[2]), h, show_var(d)))
             elif is_cell(nd):
                 out.append("n%d = <selector cell>" % i)
             elif is_key(nd):
@@ -2068,7 +2093,7 @@ def describe(item):
             else:
                 h = "" if nd[1] not in (2, 3) else " handler %s" % show_expr(nd[3])
                 own = "" if parent_of(nd) is None else " [owner under n%d's]" % nd[4]
-                out.append("n%d = %s(%s)%s%s%s" % (i, ek[nd[1] % 6], show_expr(nd[2]), h, own, show_var(nd)))
+                out.append("n%d = %s(%s)%s%s%s" % (i, ek[nd[1] % 7], show_expr(nd[2]), h, own, show_var(nd)))
         on = ["set", "notify", "read", "poll#", "run-to-idle", "pause", "resume", "dispose", "dispose-source", "not-a-write", "create-under-owner-of"]
         os_ = []
         for o in ops:
